@@ -42,6 +42,45 @@ def fingerprint(alg):
     return {"nfe": alg.nfe, "result": out}
 
 
+SKIP_ATTRS = {"problem", "evaluator", "algorithm", "function"}
+
+
+def canon(obj, seen, depth=0):
+    """canonical, identity-free dump of an algorithm's state (doubles as bit patterns)"""
+    import types
+    if obj is None or isinstance(obj, (bool, int, str)):
+        return obj
+    if isinstance(obj, float):
+        return "f" + struct.pack("<d", obj).hex()
+    if isinstance(obj, (list, tuple)):
+        return [canon(x, seen, depth + 1) for x in obj]
+    if isinstance(obj, (set, frozenset)):
+        return ["set"] + sorted(json.dumps(canon(x, seen, depth + 1), sort_keys=True, default=str) for x in obj)
+    if isinstance(obj, dict):
+        return {"dict": sorted((json.dumps(canon(k, seen, depth + 1), default=str), json.dumps(canon(v, seen, depth + 1), sort_keys=True, default=str)) for k, v in obj.items())}
+    if isinstance(obj, (types.FunctionType, types.BuiltinFunctionType, types.MethodType, type, types.ModuleType)) or callable(obj) and not hasattr(obj, "__dict__"):
+        return "<callable " + getattr(obj, "__name__", type(obj).__name__) + ">"
+    if id(obj) in seen or depth > 14:
+        return "<seen " + type(obj).__name__ + ">"
+    seen.add(id(obj))
+    d = getattr(obj, "__dict__", None)
+    if d is None:
+        return "<" + type(obj).__name__ + ">"
+    return {"class": type(obj).__name__, "attrs": {k: canon(v, seen, depth + 1) for k, v in sorted(d.items()) if k not in SKIP_ATTRS}}
+
+
+def state_digest(alg):
+    """per-attribute hashes of the algorithm's state + the global RNG state"""
+    import hashlib
+    out = {}
+    for k, v in sorted(alg.__dict__.items()):
+        if k in SKIP_ATTRS:
+            continue
+        out[k] = hashlib.blake2b(json.dumps(canon(v, set()), sort_keys=True, default=str).encode(), digest_size=8).hexdigest()
+    out["<random.getstate()>"] = hashlib.blake2b(repr(random.getstate()).encode(), digest_size=8).hexdigest()
+    return out
+
+
 def main(c):
     mode = c["mode"]
     if mode == "run":
@@ -56,15 +95,17 @@ def main(c):
         for b in c["budgets"][:-1]:
             alg.run(b)
         platypus.save_state(c["file"], alg)
+        digest = state_digest(alg)
         alg.run(c["budgets"][-1])
-        return fingerprint(alg)
+        return dict(fingerprint(alg), state=digest)
     if mode == "resume":
         random.seed(987654321)
         for _ in range(c.get("scramble", 17)):
             random.random(); random.gauss(0, 1)
         alg = platypus.load_state(c["file"])
+        digest = state_digest(alg)
         alg.run(c["budgets"][-1])
-        return fingerprint(alg)
+        return dict(fingerprint(alg), state=digest)
     raise ValueError(mode)
 
 
